@@ -74,6 +74,13 @@ Theorem C05_exception_frame : forall c w r c' fc code,
 Proof. exact exception_frame. Qed.
 Print Assumptions C05_exception_frame.
 
+(* ... and so along any preceding request history (trace = the steps of serve_all) *)
+Theorem C05_history_exception_frame : forall ws rs c,
+  inv c -> Forall2 (fun w r => decode_attrs w = Ok r) ws rs -> Forall other_ok ws ->
+  forall c0 fc code c1, In (c0, Exc fc code, c1) (trace c rs) -> c1 = c0.
+Proof. exact history_exception_frame. Qed.
+Print Assumptions C05_history_exception_frame.
+
 (* read/write-multiple performs no write unless both of its ranges are valid *)
 Theorem C05_rwm_atomic : forall c ra rn wa wn wbc data r c' o,
   inv c -> decode_attrs (WRWM ra rn wa wn wbc data) = Ok r ->
